@@ -103,6 +103,7 @@ inductive TOp where
   | terminate
   | terminate0
   | raise                     -- the test body raises an exception of its own
+  | wait                      -- the test body pauses until the remote is quiet (nothing is called)
   | probe (k : Nat)           -- use the machine's own channel
   deriving Repr, BEq, Inhabited
 
@@ -123,7 +124,7 @@ def Tag.name : Tag → String
 inductive TRes where
   | unit
   | text (t : List Char)
-  | expect (i : Nat) (before : List Char) (m : Bytes) (after : List Char)
+  | expect (i : Nat) (before : List Char) (m : List Char) (after : List Char)   -- match as text
   | term (rc : Nat) (out : List Char)
   | out (out : List Char)
   | err (t : Tag)
@@ -204,7 +205,7 @@ def tagOf : Exc → Tag
 def resOf : OpRes → TRes
   | .unit => .unit
   | .text t => .text t
-  | .expect i b m a => .expect i b m a
+  | .expect i b m a => .expect i b (decodeReplace m) a
   | .err e => .err (tagOf e)
   | _ => .err .other
 
@@ -320,6 +321,7 @@ def step (op : TOp) (sizes : List Nat) (p : PSt) : OpObs × PSt :=
     | (.ok (rc, out), used, p) => (⟨if rc = 0 then .out out else .err .failure, used⟩, p)
     | (.error t, used, p) => (⟨.err t, used⟩, p)
   | .raise => (⟨.unit, []⟩, p)
+  | .wait => (⟨.unit, []⟩, p)
   | .probe k => (⟨ownTag (Own.step p.own (probeOp k)).1, []⟩, { p with own := (Own.step p.own (probeOp k)).2 })
 
 /-- the body of the `with` block: operations up to and including a `raise` -/
